@@ -13,12 +13,10 @@ RULE = ('join correspondence: (hook level, feature verif_hooks) Line::extents, L
         'search p_thick: pixels() = draw(), all pixels inside the styled bounding box, and for strokes with segments >= 6 widths and interior '
         'angles >= 15 degrees a real-number reference: every stroke pixel lies within 1.2 * reach + 1.5 of a segment or within the miter limit '
         '(2 widths + 2) of a join, and the inner 55 percent of the stroke band along every segment is covered')
-PARTIAL = ['C07_join_triangle_edge_scanline_translate_partial (full statement: C07_join_triangle_translate - pixels()/draw()/bounding box of a '
-           'stroked triangle commute with translation; OPEN, see coq/Proofs/Join.v section 8; the executable model Model/JoinTri.v is compared '
-           'with the implementation and p_translate searches the property)',
-           'C07_join_polyline_*_translate carry hypotheses on internal values (poly_nosat: no used rounded intersection reaches the saturating cast; '
-           'poly_box_ok: segment corners within +-2^29); a coordinate bound implying them (C07_join_hypotheses_from_coordinates) is OPEN; '
-           'the model oracle evaluates them on every generated case (suite join_poly_hyp: true on all inputs up to +-2^13, widths <= 64)']
+PARTIAL = ['C07_join_polyline_*_translate and C07_join_triangle_*_translate carry hypotheses on internal values (poly_nosat: no used rounded intersection reaches the saturating cast; '
+           'poly_box_ok: segment corners within +-2^29; tri_nosat / tri_box_ok alike); a coordinate bound implying them '
+           '(C07_join_hypotheses_from_coordinates) is OPEN; the model oracle evaluates them on every generated case (suites join_poly_hyp, '
+           'join_tri_hyp: true on all inputs up to +-2^13, widths <= 64)']
 ASSUMPTIONS = ['join theorems: the saturating cast of round_div is modelled; theorems that go through it assume it is not reached '
                '(isect_nosat / join_nosat / poly_nosat, computable predicates of the input; guaranteed for all line pairs within +-511 by '
                'C07_join_intersection_translate); all other i32/i64 arithmetic of the join code is modelled unbounded: model and code agree '
@@ -121,6 +119,10 @@ def cases(tier, rng):
                 pts.append((rng.randrange(-B, B + 1), rng.randrange(-B, B + 1)))
         d = (rng.randrange(-B, B + 1), rng.randrange(-B, B + 1))
         yield J('join_poly_hyp', rng.randrange(2, 65), *d, *flat(pts))
+        t = [rng.randrange(-B, B + 1) for _ in range(6)]
+        if rng.random() < 0.3:    # nearly flat triangle
+            t[4], t[5] = (t[0] + t[2]) // 2 + rng.choice([0, 1, -1]), (t[1] + t[3]) // 2 + rng.choice([1, -1, 2])
+        yield J('join_tri_hyp', rng.randrange(0, 65), rng.randrange(3), *d, *t)
     if HOOK_SUITES:
         yield from hook_cases(tier, rng, 6 * n)
 
